@@ -837,6 +837,34 @@ pub fn exec(
     }
 }
 
+/// The caller's previous, unrelated call on this thread (one run in four): a
+/// render or mesh build of another shape, size, tile list and kind with the
+/// same backend, with or without a (simulated) pool.  Whatever the library
+/// parks for reuse between calls - thread-local caches, pooled workers,
+/// storage - is then dirty when the run's own workload arrives.  Its result
+/// is not judged here.
+fn predecessor_call(st: &Shared, rep: &mut RunReport, work: &Work) {
+    if !st.borrow_mut().ch.odds("previous_call_on_this_thread", 1, 4) {
+        return;
+    }
+    let (w2, pool) = {
+        let ch = &mut st.borrow_mut().ch;
+        let kind = *ch.pick("previous_call_kind", &[Kind::D2, Kind::D3, Kind::Mesh]);
+        let mut w2 = gen_work(ch, kind, Tier::Quick);
+        w2.backend = work.backend;
+        let pool = if ch.flag("previous_call_pool") {
+            Some(1 + ch.choose("pool", 16) as usize)
+        } else {
+            None
+        };
+        (w2, pool)
+    };
+    let b2 = build(&w2);
+    let _ = exec(st, &b2, &w2, pool, CancelPlan::Never);
+    let _ = take_info(st);
+    rep.count("fault.unrelated_call_on_this_thread_just_before", 1);
+}
+
 fn draw_pool(st: &Shared) -> usize {
     1 + st.borrow_mut().ch.choose("pool", 16) as usize
 }
@@ -897,6 +925,7 @@ pub fn run_c06(st: &Shared, tier: Tier) -> RunReport {
         }
     }
 
+    predecessor_call(st, &mut rep, &work);
     let nconf = 3;
     for c in 0..nconf {
         let pool = if c == 0 { None } else { Some(draw_pool(st)) };
@@ -1156,6 +1185,7 @@ pub fn run_c07(st: &Shared, tier: Tier) -> RunReport {
         }
     }
 
+    predecessor_call(st, &mut rep, &work);
     let nconf = 3;
     for c in 0..nconf {
         let pool = if c == 0 { None } else { Some(draw_pool(st)) };
@@ -1384,6 +1414,9 @@ pub fn run_c09(st: &Shared, tier: Tier) -> RunReport {
     rep.steps += ref_info.items + ref_info.polls;
     account_schedule(&mut rep, &ref_info, None, &work);
     st.borrow_mut().log_digest("c09_ref", reference.digest());
+
+    // the caller's previous call on this thread, after the reference was taken
+    predecessor_call(st, &mut rep, &work);
 
     // (a) simulated pools, never cancelled
     let mut pool_info = ExecInfo::default();
